@@ -1097,11 +1097,14 @@ class CompletionContextParser:
             # xonsh won't treat it as a string literal
             return None
         else:
-            if endix is None:
+            closing_quote_len = quote.count('"') + quote.count("'")
+            if (
+                endix is None
+                or raw_arg[-closing_quote_len:] != quote[-closing_quote_len:]
+            ):
                 # no closing quote
-                return CommandArg(raw_arg[len(quote) : endix], opening_quote=quote)
+                return CommandArg(raw_arg[len(quote) :], opening_quote=quote)
             else:
-                closing_quote_len = quote.count('"') + quote.count("'")
                 return CommandArg(
                     value=raw_arg[len(quote) : -closing_quote_len],
                     closing_quote=raw_arg[-closing_quote_len:],
